@@ -79,8 +79,10 @@ Theorem C11_lateral_breadth_first :
 Proof. exact bfs_sound. Qed.
 Print Assumptions C11_lateral_breadth_first.
 
-(* FLATTENED NAMES are injective - distinct (group path, name) pairs get distinct names -
-   provided no name ends with "_" or contains "__", below the length at which hashing starts. *)
+(* FLATTENED NAMES as generate_flattened_name proposes them are injective - distinct (group
+   path, name) pairs get distinct names - provided no name ends with "_" or contains "__", below
+   the length at which hashing starts (all regimes: C11_flat_injective_all; the names actually
+   used are always distinct: C11_flat_names_distinct). *)
 Theorem C11_flat_injective :
   forall hash p1 n1 p2 n2,
   Forall good (p1 ++ [n1]) -> Forall good (p2 ++ [n2]) -> short p1 n1 -> short p2 n2 ->
@@ -134,7 +136,8 @@ Print Assumptions C11_visible.
 
 (* ... and the basename handed to netCDF is bound to the intended dimension, provided no group
    strictly between the dimension's group and the variable's group defines a dimension of the
-   same name (exact guard: F11f, open) *)
+   same name (exact guard: F11f; the repaired writer tests exactly this and refuses otherwise,
+   see C11_writer_refuses_hidden) *)
 Theorem C11_visible_binding :
   forall root gd n g0 rr,
   find_group root gd = Some g0 -> mem_str n (gdims g0) = true ->
@@ -208,11 +211,7 @@ Theorem C11_lateral_fuel :
                  bfs (height root) sd ref (next_level [(p, g)])) /\
   (bfs (height root) sd ref (next_level [(p, g)]) = None ->
    forall comps g', comps <> [] -> find_group g comps = Some g' -> has_elt sd g' ref = false).
-Proof.
-  intros root p g sd ref F. split.
-  - intros extra. exact (lateral_fuel root p g sd ref extra F).
-  - exact (lateral_complete root p g sd ref F).
-Qed.
+Proof. exact lateral_fuel_and_complete. Qed.
 Print Assumptions C11_lateral_fuel.
 
 (* THE READER'S COORDINATE VARIABLE (_find_coordinate_variable as repaired by 5e5cf7d), in a
@@ -299,7 +298,7 @@ Print Assumptions C11_flat_injective_all.
 (* the two assumptions on the digest are satisfiable together *)
 Theorem C11_flat_injective_all_nonvacuous :
   (forall a b, enc a = enc b -> a = b) /\ (forall a, good (enc a)).
-Proof. split; [exact enc_inj|exact enc_good]. Qed.
+Proof. exact digest_hypotheses_satisfiable. Qed.
 Print Assumptions C11_flat_injective_all_nonvacuous.
 
 (* ... and whatever the names are (repair C11-fix2-1: a clashing name gets a counter), the names
